@@ -20,6 +20,7 @@ import (
 	"fmt"
 	"math"
 	"math/big"
+	"math/rand"
 	"sort"
 	"strings"
 	"unicode/utf8"
@@ -454,6 +455,36 @@ func c16Unknown(ctx *Ctx, t cty.Type) cty.Value {
 	return u
 }
 
+// c16Concretize replaces every placeholder by a concrete type (as concretize, but
+// walking attributes in a fixed order so that the PRNG stream is reproducible).
+func c16Concretize(r *rand.Rand, t cty.Type) cty.Type {
+	switch {
+	case t == cty.DynamicPseudoType:
+		return genTy(r, 1, TyOpts{})
+	case t.IsListType():
+		return cty.List(c16Concretize(r, t.ElementType()))
+	case t.IsSetType():
+		return cty.Set(c16Concretize(r, t.ElementType()))
+	case t.IsMapType():
+		return cty.Map(c16Concretize(r, t.ElementType()))
+	case t.IsTupleType():
+		es := t.TupleElementTypes()
+		n := make([]cty.Type, len(es))
+		for i := range es {
+			n[i] = c16Concretize(r, es[i])
+		}
+		return cty.Tuple(n)
+	case t.IsObjectType():
+		src := t.AttributeTypes()
+		atys := map[string]cty.Type{}
+		for _, k := range sortedKeys(src) {
+			atys[k] = c16Concretize(r, src[k])
+		}
+		return cty.Object(atys)
+	}
+	return t
+}
+
 type c16Opts struct {
 	unknown, null, marks, capsule bool
 }
@@ -480,10 +511,10 @@ func c16Val(ctx *Ctx, t cty.Type, depth int, o c16Opts) cty.Value {
 func c16ValU(ctx *Ctx, t cty.Type, depth int, o c16Opts) cty.Value {
 	r := ctx.R
 	if o.null && r.Intn(10) == 0 {
-		return cty.NullVal(concretize(r, t))
+		return cty.NullVal(c16Concretize(r, t))
 	}
 	if o.unknown && r.Intn(6) == 0 {
-		return c16Unknown(ctx, concretize(r, t))
+		return c16Unknown(ctx, c16Concretize(r, t))
 	}
 	switch {
 	case t == cty.Bool:
@@ -495,7 +526,7 @@ func c16ValU(ctx *Ctx, t cty.Type, depth int, o c16Opts) cty.Value {
 	case t.IsCapsuleType():
 		return cty.CapsuleVal(t, capsulePayloads[r.Intn(len(capsulePayloads))])
 	case t.IsListType() || t.IsSetType() || t.IsMapType():
-		ety := concretize(r, t.ElementType())
+		ety := c16Concretize(r, t.ElementType())
 		n := r.Intn(4)
 		if depth <= 0 {
 			n = 0
@@ -537,8 +568,9 @@ func c16ValU(ctx *Ctx, t cty.Type, depth int, o c16Opts) cty.Value {
 		return cty.TupleVal(vs)
 	case t.IsObjectType():
 		vs := map[string]cty.Value{}
-		for k, at := range t.AttributeTypes() {
-			vs[k] = c16Val(ctx, at, depth-1, o)
+		atys := t.AttributeTypes()
+		for _, k := range sortedKeys(atys) { // a fixed order: the PRNG stream must not depend on Go's map order
+			vs[k] = c16Val(ctx, atys[k], depth-1, o)
 		}
 		return cty.ObjectVal(vs)
 	}
